@@ -894,8 +894,19 @@ func (s *SSEServer) createSessionContext(ctx context.Context, session *sseSessio
 
 // processRequestAsync processes the request asynchronously.
 func (s *SSEServer) processRequestAsync(ctx context.Context, request *JSONRPCRequest, session *sseSession) {
-	// Create a context that will not be canceled due to HTTP connection closure.
-	detachedCtx := icontext.WithoutCancel(ctx)
+	// Create a context that will not be canceled due to HTTP connection closure:
+	// the POST that carried the request has already been answered with 202.
+	// The request lives as long as its session does, so the handler's context ends
+	// with the session's stream instead.
+	detachedCtx, cancel := context.WithCancel(icontext.WithoutCancel(ctx))
+	defer cancel()
+	go func() {
+		select {
+		case <-session.done:
+			cancel()
+		case <-detachedCtx.Done():
+		}
+	}()
 
 	// Check if this is a response to our roots/list request.
 	if s.isRootsListResponse(request) {
